@@ -176,6 +176,55 @@ func (h *c07h) finish(out string, jobs []*c07job) error {
 		}
 	}
 	for _, j := range jobs {
+		for _, c := range j.sess {
+			next++
+			c.ID = next
+			oc := func(l []string) (string, bool) {
+				it := make([]string, len(l))
+				ok := true
+				for i, x := range l {
+					switch x {
+					case "ok":
+						it[i] = "OOk"
+					case "zero":
+						it[i] = "OZero"
+					default:
+						ok = false
+						it[i] = "OZero"
+					}
+				}
+				return coqList(it), ok
+			}
+			implT, ok1 := oc(c.impl)
+			refT, ok2 := oc(c.ref)
+			byKind["sess"] = append(byKind["sess"], fmt.Sprintf("(%d%%N, %s, %s, %s)", c.ID, coqList(c.steps), implT, refT))
+			sm.ImplComparisons++
+			sm.RefComparisons++
+			sm.count("case:sess")
+			if c.region != "" {
+				sm.count("region:" + c.region)
+			}
+			info := map[string]any{"kind": "sess", "region": c.region, "steps": c.input["steps"], "signature": c.input["signature"], "path": c.input["path"]}
+			sm.CaseIndex[fmt.Sprint(c.ID)] = info
+			allok := ok1 && ok2
+			for _, x := range append(append([]string{}, c.impl...), c.ref...) {
+				allok = allok && x == "ok"
+			}
+			if !allok {
+				in := map[string]any{"script": c.input["script"], "observed": c.input["observed"]}
+				for k, v := range info {
+					in[k] = v
+				}
+				region := c.region
+				if !ok1 || !ok2 {
+					region = "" // neither the function's results nor zero values
+				}
+				sm.RefMismatches = append(sm.RefMismatches, refMismatch{ID: c.ID, Region: region, Input: in, Impl: c.impl, Ref: "every native call gives the function's results, like the in-script calls: " + fmt.Sprint(c.ref),
+					Note: "a function value kept by the host across the session"})
+			}
+		}
+	}
+	for _, j := range jobs {
 		for _, m := range j.other {
 			next++
 			m.ID = next
@@ -183,8 +232,8 @@ func (h *c07h) finish(out string, jobs []*c07job) error {
 		}
 	}
 	hdr := "From Verif Require Import Lib.Str Boundary.Types Boundary.Marshal Boundary.Cases.\n"
-	per := map[string]int{"arg": 120, "res": 150, "var": 200, "meth": 400, "wrap": 2000, "disp": 2000}
-	for _, k := range []string{"arg", "res", "var", "meth", "wrap", "disp"} {
+	per := map[string]int{"arg": 120, "res": 150, "var": 200, "meth": 400, "wrap": 2000, "disp": 2000, "sess": 2000}
+	for _, k := range []string{"arg", "res", "var", "meth", "wrap", "disp", "sess"} {
 		cases := byKind[k]
 		for i, n := 0, 0; i < len(cases); i, n = i+per[k], n+1 {
 			e := i + per[k]
